@@ -111,7 +111,11 @@ def make_monitored_daemon_class(base=None):
             self.evlog = EventLog()
             self.hs_validator = None
             self.on_disconnect = None
+            self.reply_annotations = None       # dict: sent with every response (the documented Daemon.annotations() override point)
             super().__init__(*a, **k)
+
+        def annotations(self):
+            return dict(self.reply_annotations) if self.reply_annotations else {}
 
         def validateHandshake(self, conn, data):
             with MonitoredDaemon._serial_lock:
